@@ -330,6 +330,8 @@ def _rw(t, rules, gt, parent, slot):
                 return lraw["op"] == "+" and "unary-plus-left-of-pow" in rules
             return False
         if lraw["k"] == "bin" and inherited:
+            if lraw["op"] == "**" and pop == "**":     # parenthesised unless that defect
+                return "pow-left-nested" in rules
             return PREC[lraw["op"]] >= PREC[pop]       # else parenthesised
         return False
 
